@@ -160,6 +160,33 @@ func c14Programs(tier string) []*Spec {
 			}
 		}
 	}
+	// a program that builds every bar's decorator lists in one scratch slice (passed as slice...): each bar keeps
+	// its own listeners, each notified exactly once
+	for _, rf := range []string{"auto", "manual", "none"} {
+		for _, how := range []string{"cancel", "shutdown"} {
+			sp := &Spec{Name: "c14-" + how + "-reused-slice", Refresh: rf, Q: -1, Notifier: true, ReuseDecorSlice: true}
+			for i := 0; i < 3; i++ {
+				sp.Bars = append(sp.Bars, BarSpec{Total: 3, Pre: []DecorSpec{listenD(i, true)}, App: []DecorSpec{listenD(3+i, false)}})
+				sp.Main = append(sp.Main, Op{K: "add", B: i})
+			}
+			sp.Clients = [][]Op{{{K: "incr", B: 0, N: 1}}, {{K: how}}, {{K: "barwait", B: 0}}}
+			for i := 0; i < 3; i++ {
+				sp.Late = append(sp.Late, Op{K: "get", B: i})
+			}
+			out = append(out, sp)
+		}
+	}
+	// cancellation and Shutdown landing while a render delay is still pending
+	for _, rf := range []string{"auto", "manual"} {
+		for _, how := range []string{"cancel", "shutdown"} {
+			sp := &Spec{Name: "c14-" + how + "-during-render-delay", Refresh: rf, Q: -1, Notifier: true, Delay: true}
+			sp.Bars = []BarSpec{{Total: 3, Pre: []DecorSpec{listenD(0, true)}}, {Total: 3, App: []DecorSpec{listenD(1, false)}}}
+			sp.Main = []Op{{K: "add", B: 0}, {K: "add", B: 1}}
+			sp.Clients = [][]Op{{{K: "incr", B: 0, N: 1}}, {{K: how}}, {{K: "barwait", B: 0}}}
+			sp.Late = []Op{{K: "get", B: 0}, {K: "get", B: 1}}
+			out = append(out, sp)
+		}
+	}
 	return out
 }
 
@@ -199,7 +226,7 @@ func c16Programs(tier string) []*Spec {
 func init() {
 	register(&Family{
 		Property: "C14",
-		Rule: "programs with 1..2 bars carrying shutdown-listener decorators wrapped 0..3 levels deep on both sides (synchronised and plain), notifier on, refresh{auto,manual,none}; a dedicated thread issues ctx cancel or Shutdown so the explorer places it at every scheduling point within the deviation bound (before any render, mid-cycle, between a completion and its second render). " +
+		Rule: "programs with 1..2 bars carrying shutdown-listener decorators wrapped 0..3 levels deep on both sides (synchronised and plain), notifier on, refresh{auto,manual,none}, decorator lists passed from a reused scratch slice, a render delay still pending; a dedicated thread issues ctx cancel or Shutdown so the explorer places it at every scheduling point within the deviation bound (before any render, mid-cycle, between a completion and its second render). " +
 			"Oracle once Wait returned: every call returned, late getters show IsRunning=false and exactly one of completed/aborted, each listener notified exactly once, exactly one notifier value without duplicates listing every bar no frame dropped, no library thread alive at quiescence.",
 		Items: func(tier string) []Item {
 			var items []Item
